@@ -272,6 +272,7 @@ def leg(ctx, rng, tmp, observe, what, families, which=None, n_per_family=1, prim
             guards.append(d)
             if prepare is not None:
                 prepare(rng, d)
+            history(ctx, d, observe, what)
             # one-based meshes are padded with 0 every other time (no element has that number), otherwise with -1
             fill = 0 if (' si=1 ' in d.spec.get('label', '') + ' ' and rep % 2 == 0) else -1
             count_ds = getattr(ctx, '_traits_files', 0)
@@ -303,6 +304,73 @@ def leg(ctx, rng, tmp, observe, what, families, which=None, n_per_family=1, prim
                                f'memory - {first_difference(got, want)}', case)
     model_guard(ctx, guards, what)
     return count
+
+
+def snapshot_of(ds):
+    return {'data': ds.copy(deep=True),
+            'attrs': {str(v): repr(sorted((str(k), repr(x)) for k, x in ds[v].attrs.items())) for v in ds.variables},
+            'encoding': {str(v): repr(sorted((str(k), repr(x)) for k, x in ds[v].encoding.items())) for v in ds.variables},
+            'global': repr(sorted((str(k), repr(x)) for k, x in ds.attrs.items()))}
+
+
+def changed_since(ds, snap):
+    if not ds.identical(snap['data']):
+        return 'its variables, coordinates or attributes differ'
+    if list(map(str, ds.variables)) != list(map(str, snap['data'].variables)):
+        return 'the order of its variables changed'
+    for v in ds.variables:
+        if repr(sorted((str(k), repr(x)) for k, x in ds[v].encoding.items())) != snap['encoding'][str(v)]:
+            return f'the encoding of {v} changed'
+    return None
+
+
+def history(ctx, d, observe, what):
+    """the answer for a dataset is the same the second time, after another dataset of the same shape and names was
+    processed in between, and asking leaves the dataset as it was (values, attributes, encodings)"""
+    base = d.ds
+    case = {'dataset': d.spec['label'], 'observed': what, 'history': None}
+    ctx.case((d.spec['label'], 'history', what), True)
+    ctx.count('history:same dataset again / after another dataset / input unchanged')
+    with warnings.catch_warnings():
+        warnings.simplefilter('ignore')
+        try:
+            snap = snapshot_of(base)
+            fresh = observe(snap['data'].copy(deep=True))
+        except Exception as e:      # noqa: BLE001
+            ctx.count(f'reference not observable ({type(e).__name__}): skipped')
+            return
+        geometry_names = {str(x) for x in base.ems.get_all_geometry_names()}
+        for nm in base.variables:
+            b = base[nm].attrs.get('bounds')
+            if b:
+                geometry_names.add(str(b))
+        other = reverse_data(gen.shift_coordinates(base, dlon=1.0), geometry_names)
+        other.encoding = {}
+        steps = []
+        try:
+            steps.append(('the first time', observe(base)))
+            steps.append(('the second time on the same object', observe(base)))
+            o_other = observe(other)
+            steps.append(('again after a dataset of the same shape and names (moved one degree east, data reversed) was processed', observe(base)))
+            ref_other = observe(other.copy(deep=True))
+        except Exception as e:      # noqa: BLE001
+            import traceback
+            where = ' <- '.join(f'{fr.name}:{fr.lineno}' for fr in traceback.extract_tb(e.__traceback__)[-3:])
+            ctx.report('property', f'{what}: fails in a sequence of calls ({type(e).__name__}: {str(e)[:160]} | {where}) although a fresh copy of '
+                       f'the dataset is answered', case)
+            return
+    for when, got in steps:
+        if not same(got, fresh):
+            ctx.report('property', f'{what}: asked {when}, the dataset is answered differently from a fresh copy of it - '
+                       f'{first_difference(got, fresh)}', dict(case, history=when))
+            return
+    if not same(o_other, ref_other):
+        ctx.report('property', f'{what}: a dataset processed after another one of the same shape and names is answered differently from a '
+                   f'fresh copy of it - {first_difference(o_other, ref_other)}', dict(case, history='second dataset'))
+        return
+    ch = changed_since(base, snap)
+    if ch:
+        ctx.report('property', f'{what}: asking modified the dataset that was asked about: {ch}', dict(case, history='input unchanged'))
 
 
 def model_guard(ctx, datasets, what):
